@@ -6,7 +6,7 @@ from __future__ import annotations
 import ast
 
 from sa.core import Ob
-from sa.pm import AnalysisError, norm, body_nodes
+from sa.pm import AnalysisError, Undecided, norm, body_nodes
 from sa import gi, df, ru, sym
 from sa.gi import IntSet, iv
 
@@ -44,7 +44,7 @@ def c20_1(ctx):
     w0 = sym.walk(ctx, f)
     loops = _loops_over(w0, f, "self.txs_out")
     if len(loops) != 1:
-        raise AnalysisError("%s: expected one loop over self.txs_out" % f.where)
+        raise Undecided("%s: expected one loop over self.txs_out" % f.where)
     lv = loops[0].target.id
     subj = "%s.coin_value" % lv
     w = sym.int_walk(ctx, f, {subj}, {"self.MAX_MONEY"})
@@ -159,7 +159,7 @@ def c20_3(ctx):
     w = sym.walk(ctx, f)
     rets = [e for e in w.exits if e.kind == "return"]
     if len(rets) != 1 or rets[0].value is None:
-        raise AnalysisError("TxIn.is_coinbase: expected a single return expression")
+        raise Undecided("TxIn.is_coinbase: expected a single return expression")
     form = w.atomize(rets[0].value, True)
     zero = repr(b"\0" * 32)
     a_hash = ("op", " == ".join(sorted([zero, "self.previous_hash"])))
@@ -171,7 +171,7 @@ def c20_3(ctx):
     w = sym.int_walk(ctx, f, {"len(self.txs_in)"})
     rets = [e for e in w.exits if e.kind == "return"]
     if len(rets) != 1 or rets[0].value is None:
-        raise AnalysisError("Tx.is_coinbase: expected a single return expression")
+        raise Undecided("Tx.is_coinbase: expected a single return expression")
     form = w.atomize(rets[0].value, True)
     s = gi.sat_set(form, U, E)
     ops = gi.f_opaques(form)
@@ -179,7 +179,12 @@ def c20_3(ctx):
               "Tx.is_coinbase: true for len(txs_in) in %s with conditions %s; property requires exactly one input which is the null outpoint" % (s.fmt(), ops), sample={"function": f.qualname, "len(txs_in)": s.fmt(), "and": ops})
     f = ctx.func(TX, "Tx._check_txs_in")
     w = sym.walk(ctx, f)
-    hits = [e for e in w.exits if _is_raise_vfe(e) and e.value is not None and "null" in norm(e.value)]
+    def _null_guard(e):
+        ops_ = gi.f_opaques(e.cond) if e.cond not in (True, False) else []
+        return any((o.startswith("truthy(") and o.endswith(".is_coinbase())") and not o.startswith("truthy(self.")) or ("previous_hash" in o and repr(b"\0" * 32) in o) for o in ops_)
+    loops_in = _loops_over(w, f, "self.txs_in")
+    hits = [e for e in w.exits if _is_raise_vfe(e) and e.node is not None and any(any(x is e.node for x in ast.walk(lp)) for lp in loops_in) and _null_guard(e)
+            and not any((" in " in o) for o in (gi.f_opaques(w.guards.get(id(sym.enclosing_if(f.node, e.node)), True)) if sym.enclosing_if(f.node, e.node) is not None and w.guards.get(id(sym.enclosing_if(f.node, e.node)), True) not in (True, False) else []))]
     if not hits:
         ctx.bad("null-prevout-rule", ctx.where(f), "Tx._check_txs_in: no `prevout is null` rejection found for non-coinbase transactions")
     for e in hits:
